@@ -26,6 +26,7 @@ type ExchangeJSightSchema struct {
 	exchangeUsedUserTypes *StringSet
 	// UserUserTypes a list of used user enums.
 	exchangeUsedUserEnums *StringSet
+	compileErr            error
 }
 
 func newExchangeJSightSchema(s *jschema.JSchema) *ExchangeJSightSchema {
@@ -83,20 +84,18 @@ func (e *ExchangeJSightSchema) Notation() notation.SchemaNotation {
 	return notation.SchemaNotationJSight
 }
 
-func (e *ExchangeJSightSchema) Compile() (err error) {
+func (e *ExchangeJSightSchema) Compile() error {
 	verifYield("exchange-jsight-compile")
 	e.onceCompile.Do(func() {
-		err = e.buildContent()
-		if err != nil {
+		// The error is kept: every call has to report it, not only the first one.
+		e.compileErr = e.buildContent()
+		if e.compileErr != nil {
 			return
 		}
 
-		err = e.processAllOf(e.exchangeUsedUserTypes)
-		if err != nil {
-			return
-		}
+		e.compileErr = e.processAllOf(e.exchangeUsedUserTypes)
 	})
-	return err
+	return e.compileErr
 }
 
 func (e *ExchangeJSightSchema) buildContent() error {
